@@ -132,7 +132,8 @@ def jumps_job(params):
         except Exception as e:
             event(f'jumps exception:{type(e).__name__}', detail=str(e)[:100])
 
-    return symbolic_job(params, body, jumps_job_replay)
+    sp = params.get('split')
+    return symbolic_job(params, body, jumps_job_replay, split=tuple(sp) if sp else None)
 
 
 def _visited_jumps(s, a):
@@ -211,5 +212,8 @@ def jobs(tier, seed):
     for T, A in dflt:
         js.append(dict(name=f'default_T{T}_A{A}', fn='jumps_job', params=dict(T=T, A=A, mode='default')))
     for T, A, m in inner:
-        js.append(dict(name=f'inner_T{T}_A{A}_m{m}', fn='jumps_job', params=dict(T=T, A=A, mode='inner', m=m)))
+        depth = 5 if (T, A) == (4, 2) else 0  # ~10^5 paths of pandas code: split over the first free decisions
+        for i in range(2 ** depth):
+            js.append(dict(name=f'inner_T{T}_A{A}_m{m}' + (f'_part{i}of{2 ** depth}' if depth else ''), fn='jumps_job',
+                           params=dict(T=T, A=A, mode='inner', m=m, split=[i, depth] if depth else None)))
     return js
